@@ -105,7 +105,7 @@ package state
 //@     && unbox(top(self.journal), "state.suicideChange").prev == old(obj(self, addr).suicided)
 //@     && big(unbox(top(self.journal), "state.suicideChange").prevbalance) == old(big(obj(self, addr).data.Balance))
 //@     && unbox(top(self.journal), "state.suicideChange").prevbalance != old(obj(self, addr).data.Balance)
-//@   ensures[C09] @value result ==> obj(self, addr).suicided && big(obj(self, addr).data.Balance) == 0
+//@   ensures[C05,C09] @value result ==> obj(self, addr).suicided && big(obj(self, addr).data.Balance) == 0
 //@   ensures[C09] @absent result == (obj(self, addr) != nil) && (!result ==> len(self.journal) == old(len(self.journal)))
 
 //@ func suicideChange.undo
